@@ -46,12 +46,27 @@ class CriticalPathCalculator:
         self.__tasks: Dict[Any, Task] = {}
         self.__end_date = end_date
 
+        tasks = [t for t in tasks]
+        # Only given tasks take part in calculation: predecessors from other projects are not part of the path
+        self.__scope = set(id(t) for t in tasks)
+
         for t in tasks:
             if end_date is not None:
                 if t.end == end_date:
                     self.__insert_task(t)
             else:
                 self.__insert_task(t)
+
+    def __prerequisites(self, task: Task) -> List[Task]:
+        """Leaf tasks that must be finished before task: predecessors of task and of all its parents,
+        summary predecessors are replaced with their leaf children"""
+        res = []
+        for t in [task] + [p for p in task.all_parents]:
+            for p in t.predecessors:
+                for leaf in [p] + [ch for ch in p.all_children]:
+                    if len(leaf.children) == 0 and id(leaf) in self.__scope and not any(leaf is r for r in res):
+                        res.append(leaf)
+        return res
 
     def __insert_task(self, task: Task):
         if len(task.children) > 0:
@@ -63,7 +78,7 @@ class CriticalPathCalculator:
         self.__tasks[task.id] = task
 
         p_ids = []
-        for p in task.predecessors:
+        for p in self.__prerequisites(task):
             p_ids.append(p.id)
             self.__insert_task(p)
 
